@@ -97,15 +97,13 @@ class KaniProp:
             if eng:
                 inconclusive.append("%s: %s" % (inst.name, eng[0]))
                 continue
-            if not any(k.startswith("ENGINE Vec::push stub") or True for k in [1]):
-                pass
             rel = [(d, l, i) for (d, l, i) in r.failed if relevant(pid, d, self.safety_owner)
                    and not any(n in d for n in ENGINE_NOISE)]
             if not rel:
                 continue
             # a solver counterexample: extract and replay natively before reporting
             log("[%s] %s: %d relevant failed checks, e.g. %s" % (pid, inst.name, len(rel), rel[0][0]))
-            verdict = self._replay(pid, sc, inst, rel)
+            verdict = self._replay(pid, sc, inst, rel, r, logp)
             if verdict[0] == "violation":
                 kfm = match_known(kf, pid, inst, verdict[2])
                 if kfm:
@@ -140,10 +138,11 @@ class KaniProp:
             return 2
         return 0
 
-    def _replay(self, pid, sc, inst, rel):
-        tapes = engine.concrete_playback(sc, self.package, inst.name, small=self.small, extra_args=self.extra_args)
+    def _replay(self, pid, sc, inst, rel, r, logdir):
+        tapes = engine.extract_tapes(sc, r.symtab, inst.name, inst.unwind, [i for (_, _, i) in rel], logdir,
+                                    unwind_rules=getattr(inst, 'unwind_rules', None))
         if not tapes:
-            return ("inconclusive", "no concrete playback produced")
+            return ("inconclusive", "no counterexample trace produced")
         seen = set()
         last = "no tape reproduced"
         for tape in tapes:
@@ -282,13 +281,17 @@ chars = KaniProp("nucleo-matcher", matcher_props.chars_instances, "C16", functio
 EXACT_FUNCS = ["Matcher::{substring,prefix,postfix,exact}_{match,indices}", "Matcher::substring_match_impl", "Matcher::exact_match_impl",
                "Matcher::substring_match_1_ascii", "Matcher::substring_match_ascii", "Matcher::substring_match_ascii_with_prefilter",
                "Matcher::calculate_score", "Utf32Str::{leading,trailing}_white_space", "Config::bonus_for"]
-exact = KaniProp("nucleo-matcher", matcher_props.exact_instances, "C10", functions=EXACT_FUNCS,
+def exact_uni_instances(tier):
+    return matcher_props.exact_instances(tier) + [i for i in matcher_props.uni_instances(tier) if "C05" in i.props]
+
+
+exact = KaniProp("nucleo-matcher", exact_uni_instances, "C10", functions=EXACT_FUNCS,
                  assumptions=MATCHER_ASSUME + ["U+000B excluded from the alphabets (std's byte and char whitespace predicates disagree on it; the statement does not say which is meant)"],
                  outside=["haystacks / needles beyond the per-tier bounds", "non-ASCII representations (see the *_uni instances)"], selftest=True)
 
 
 def fuzzy_exact_instances(tier):
-    return matcher_props.fuzzy_instances(tier) + matcher_props.exact_instances(tier)
+    return matcher_props.fuzzy_instances(tier) + matcher_props.exact_instances(tier) + matcher_props.uni_instances(tier)
 
 
 both = KaniProp("nucleo-matcher", fuzzy_exact_instances, "C10", functions=FUZZY_FUNCS + EXACT_FUNCS,
